@@ -38,7 +38,7 @@ import (
 // them quickly; all others use the long net timeout so that machine load can
 // never fire it by accident.
 const (
-	shortPlay = 700 * time.Millisecond // play-phase timeout when the camera goes quiet at the end (harness steps happen inside it)
+	shortPlay = 500 * time.Millisecond // play-phase timeout when the camera goes quiet at the end (harness steps happen inside it)
 	shortNet  = 300 * time.Millisecond
 	longNet   = 20 * time.Second
 	heartbeat = 40 * time.Millisecond
@@ -251,6 +251,18 @@ func takeBaseline() baseline {
 	b.gor, _ = streamGoroutines(false)
 	b.fds = socketFDs()
 	return b
+}
+
+// waitSlow polls an expensive condition (goroutine profile, /proc) every 2 ms.
+func waitSlow(d time.Duration, cond func() bool) bool {
+	deadline := time.Now().Add(d)
+	for !cond() {
+		if time.Now().After(deadline) {
+			return false
+		}
+		time.Sleep(2 * time.Millisecond)
+	}
+	return true
 }
 
 func gorExcess(now, base map[string]int) string {
@@ -516,7 +528,7 @@ func runScenario(sc *scenario, rq requester) *result {
 	cleanupChecks(res, sc, base, cam, canon, recs, false)
 	closeCam()
 	// descriptors: everything the scenario opened is closed again
-	if !mediah.WaitFor(bound/2, func() bool { return socketFDs() <= base.fds }) {
+	if !waitSlow(bound/2, func() bool { return socketFDs() <= base.fds }) {
 		res.failf("socket-leak", "%d socket descriptors are open after the scenario, %d before (the camera has closed all of its own)", socketFDs(), base.fds)
 	}
 	if sc.FollowUp && len(res.failures) == 0 {
@@ -762,7 +774,7 @@ func cleanupChecks(res *result, sc *scenario, base baseline, cam *fakecam.Camera
 			res.failf("consumer-not-closed", "consumer %d of the ended stream was never closed", i)
 		}
 	}
-	if !mediah.WaitFor(bound, func() bool { g, _ := streamGoroutines(false); return gorExcess(g, base.gor) == "" }) {
+	if !waitSlow(bound, func() bool { g, _ := streamGoroutines(false); return gorExcess(g, base.gor) == "" }) {
 		g, dump := streamGoroutines(true)
 		res.failf("goroutine-leak", "goroutines left behind: %s\n%s", gorExcess(g, base.gor), dump)
 	}
